@@ -189,7 +189,8 @@ def finish(prop, tier, verif_seed, results, extra, det, known, pools, t0, shrink
         "wall_s": round(wall, 2),
         "violations": len(viol_runs),
     }
-    os.makedirs(os.path.join(VERIF, "evidence"), exist_ok=True)
+    OUT = os.environ.get("MDPSIM_OUT", VERIF)
+    os.makedirs(os.path.join(OUT, "evidence"), exist_ok=True)
 
     rc = 0
     for kid, (k, cnt) in sorted(known_lines.items()):
@@ -240,7 +241,7 @@ def finish(prop, tier, verif_seed, results, extra, det, known, pools, t0, shrink
         if frac > 0.5:
             print("HARNESS-ERROR: more than half of the planned runs did not execute")
             rc = 2
-    json.dump(evidence, open(os.path.join(VERIF, "evidence", f"{prop}.json"), "w"), indent=1, sort_keys=True, default=str)
+    json.dump(evidence, open(os.path.join(OUT, "evidence", f"{prop}.json"), "w"), indent=1, sort_keys=True, default=str)
     print(
         f"[{prop}/{tier}] executed={len(executed)} distinct_nontrivial={evidence['coverage']['distinct_nontrivial']} violations={len(viol_runs)} "
         f"harness_errors={len(harness)} wall={wall:.1f}s -> exit {rc}",
